@@ -23,7 +23,7 @@ RULE = ('cases: seeded declaration histories: 0-5 parameters declared through th
         'KeyError and leave build() unchanged. Non-trivial history: product of >=2 factors of length >=2 with a repeated value or a '
         'string/scalar factor, plus >=1 rejected op; distinct by (declaration signature, op trace). Products capped at 2000 in the histories; a scale regime builds products of 4 097-10 000 combinations and declarations of 1 100-2 100 parameters.')
 ASSUMPTIONS = ['collections are re-iterable (no one-shot iterators)', 'values compare with == (no NaN)']
-FLOORS = {'quick': {'builds_interrupted_by_a_failing_collection': 287, 'edited_collections_declared_again': 380, 'bag_factors': 215, 'builds_compared': 10000, 'empty_factor_products': 500, 'no_parameter_products': 100, 'string_factors': 800,
+FLOORS = {'quick': {'cases_in_mode_debuglog': 251, 'lists_replaced_by_a_copy_of_themselves': 137, 'builds_interrupted_by_a_failing_collection': 287, 'edited_collections_declared_again': 380, 'bag_factors': 215, 'builds_compared': 10000, 'empty_factor_products': 500, 'no_parameter_products': 100, 'string_factors': 800,
                     'scalar_factors': 800, 'repeated_value_factors': 600, 'numpy_factors': 600, 'range_factors': 600,
                     'rejected_nonstr_name': 1000, 'rejected_duplicate': 760, 'rejected_unknown_removal': 1000,
                     'sibling_list_checks': 500, 'big_builds': 6, 'declarations_with_1000_plus_parameters': 3, 'constructor_declarations': 709, 'rejected_constructor': 100, 'reach:Batching.ParameterList.build': 10000},
@@ -79,9 +79,12 @@ def product(decl):
     return [dict(row) for row in out]
 
 
+BY_VALUE = [False]      # set while a list under test is a copy of the declared one: nested values are then equal objects, not the same
+
+
 def same_value(a, b):
     if isinstance(a, (list, dict)) or isinstance(b, (list, dict)):
-        return a is b
+        return (a is b) or (BY_VALUE[0] and type(a) is type(b) and a == b)
     try:
         return type(a) == type(b) and bool(a == b)
     except Exception:  # noqa
@@ -115,6 +118,7 @@ def compare(ctx, pl, decl, what):
 
 def case_history(ctx, case):
     import ECAgent.Batching as batching
+    BY_VALUE[0] = False
     rng = ctx.rng('hist', case['i'])
     decl = []         # [(name, value)] in declaration order
     trace = []
@@ -195,6 +199,18 @@ def case_history(ctx, case):
                 n2 = new_name()
                 pl.add_parameter(n2, 'after the failure')          # a valid operation right after the interrupted build
                 decl.append((n2, 'after the failure'))
+        elif x < 0.62:
+            # the list is replaced by a deep copy or a pickle round trip of itself (a saved experiment set-up that is restored later)
+            import copy as _copy
+            import pickle as _pickle
+            how = rng.choice(['deepcopy', 'pickle'])
+            try:
+                pl = _copy.deepcopy(pl) if how == 'deepcopy' else _pickle.loads(_pickle.dumps(pl))
+                BY_VALUE[0] = True
+                ctx.count('lists_replaced_by_a_copy_of_themselves')
+                trace.append((how,))
+            except (TypeError, _pickle.PicklingError, AttributeError):
+                continue            # a declared value that cannot be pickled: not the library's business
         elif x < 0.65 and decl:
             n = rng.choice(decl)[0]
             pl.remove_parameter(n)
